@@ -114,7 +114,7 @@ SPECIAL_C17L = _c17l_tasks
 PROPS["C17"]["suites"] += [dict(unit="unit_c17_leftovers", special="c17l")]
 PROPS["C17"]["rule"] += ("; directory audit: on 8 JSON classes x threading on/off x write_concern on/off x file missing/existing x what another writer left in the "
                         "directory (complete / cut-off temporary file of an atomic save, backup-style siblings, nothing) x {unbuffered, obj.buffered, buffer_backend()}: "
-                        "after each of 8 kinds of read and after leaving the context, names, bytes, inode and mtime of EVERY file in the directory are unchanged")
+                        "after each of 8 kinds of read and after leaving the context, names, bytes, inode and mtime of EVERY file in the directory are unchanged, and the mutating file operations seen by the process-wide tracer are exactly those of the model's FS.loadProgram (none)")
 
 
 def _iofault_tasks(tier, seed):
